@@ -32,6 +32,35 @@ def atom_kind(x):
     return None, None
 
 
+def check_len_grid(rep, facts, a, fn):
+    reps, rows = booldec.len_grid_table(a, [1, 2])
+    bad = 0
+    for env, rt, site in rows:
+        l1, l2 = env[1], env[2]
+        inst = 'len(psk)=%s%s, len(psk_id)=%s%s' % (l1, '+' if l1 == reps[-1] else '', l2, '+' if l2 == reps[-1] else '')
+        if (l1 == 0) == (l2 == 0):
+            ok = is_ok_agg(rt)
+            if ok:
+                pl = rt[3][0]
+                fields = dict(zip(pl[4], pl[3])) if pl[0] == 'agg' else {}
+                okf = pl[0] == 'agg' and pl[2].startswith(BUNDLE) and fields.get('psk') == ('param', 1) and fields.get('psk_id') == ('param', 2)
+                if not okf:
+                    rep.bad('R15.2', fn, 'fields:' + inst, pp(pl), 'PskBundle { psk: <param 0>, psk_id: <param 1> }', where(a, site))
+            if not ok:
+                bad += 1
+                rep.bad('R15.1', fn, inst, pp(rt), 'Ok(bundle): both empty or both non-empty', where(a, site))
+        else:
+            ok = is_err_agg(rt) and hpke_variant(rt[3][0]) == 'InvalidPskBundle'
+            if not ok:
+                bad += 1
+                rep.bad('R15.1', fn, inst, pp(rt), 'Err(InvalidPskBundle): a lone key or lone identifier', where(a, site))
+    if not bad:
+        rep.ok('R15.1', fn, 'length-grid', '%d x %d representative length pairs (0..%d, %d+): Ok iff both empty or both non-empty' % (
+            len(reps), len(reps), reps[-1] - 1, reps[-1]))
+        rep.ok('R15.2', fn, 'fields', 'every Ok row stores (psk, psk_id) in order')
+    rep.extra['exhaustive'] = True
+
+
 def run(ctx):
     rep, facts = ctx.rep, ctx.facts
     news = find_new(facts)
@@ -43,7 +72,11 @@ def run(ctx):
         try:
             atoms, rows = booldec.bool_table(a, lambda x: atom_kind(x)[0] is not None)
         except booldec.Undecidable as e:
-            rep.undecided('R15.1', fn, 'decision-table', str(e), 'branches only on the emptiness of the two parameters', where(a))
+            # general form: comparisons of the two lengths with constants (slice patterns, `len() >= 1`, ...)
+            try:
+                check_len_grid(rep, facts, a, fn)
+            except booldec.Undecidable as e2:
+                rep.undecided('R15.1', fn, 'decision-table', '%s / %s' % (e, e2), 'branches only on the lengths of the two parameters', where(a))
             continue
         # evaluate all four valuations
         for e1 in (True, False):
